@@ -137,6 +137,7 @@ fn c07_encoder(chk: &Check) {
                     let r: [RawShortMessage; 2] = m.to_short_messages();
                     let s: [StructuredShortMessage; 2] = m.to_short_messages();
                     let f: [Foreign3; 2] = m.to_short_messages();
+                    let fr: [ForeignRefusing; 2] = m.to_short_messages();
                     let r2: [RawShortMessage; 2] = m.into();
                     let s2: [StructuredShortMessage; 2] = m.into();
                     let b = |x: &dyn Fn(usize) -> (u8, U7, U7)| [x(0), x(1)].map(|t| (t.0, t.1.get(), t.2.get()));
@@ -144,12 +145,13 @@ fn c07_encoder(chk: &Check) {
                         b(&|i| r[i].to_bytes()),
                         b(&|i| s[i].to_bytes()),
                         b(&|i| f[i].to_bytes()),
+                        b(&|i| fr[i].to_bytes()),
                         b(&|i| r2[i].to_bytes()),
                         b(&|i| s2[i].to_bytes()),
                     ];
                     for (k, g) in got.iter().enumerate() {
                         if *g != want {
-                            vio!(chk, "encoding", ["Raw", "Structured", "Foreign3", "Into<[Raw;2]>", "Into<[Structured;2]>"][k], format!("cc14|{}|{}|{}", c, n, v),
+                            vio!(chk, "encoding", ["Raw", "Structured", "Foreign3", "ForeignRefusing", "Into<[Raw;2]>", "Into<[Structured;2]>"][k], format!("cc14|{}|{}|{}", c, n, v),
                                 format!("new(ch {}, cn {}, {}) encodes to {:?}, expected {:?}", c, n, v, g, want));
                         }
                     }
